@@ -89,7 +89,7 @@ def load_overlay(path, variants=frozenset()):
         nonlocal buf, sec
         if cur is not None and sec is not None:
             text = '\n'.join(buf).rstrip() + '\n'
-            if sec[0] in ('before', 'after'):
+            if sec[0] in ('before', 'after', 'after-stmt'):
                 cur.anchors.append((sec[0], sec[1], text, sec[2]))
             else:
                 if sec in cur.sections:
@@ -118,7 +118,7 @@ def load_overlay(path, variants=frozenset()):
         elif ln.startswith('--- '):
             flush()
             h = ln[4:].strip()
-            m = re.fullmatch(r'(before|after)\s+<<(.*)>>', h)
+            m = re.fullmatch(r'(before|after|after-stmt)\s+<<(.*)>>', h)
             m2 = re.fullmatch(r'(loop|closure)\s+(\d+)\s+(outer|pre|spec|post)', h)
             if m:
                 sec = (m.group(1), m.group(2), no)
@@ -386,7 +386,7 @@ def _closures(body, spec, ctr, dropped, used):
                 if csp is not None:
                     used.add(('closure', k, 'spec'))
                 # split parameters at top-level commas
-                plist, cur, depth = [], [], 0
+                plist, cur, depth, commas = [], [], 0, []
                 for x in params:
                     if x.kind == 'punct' and x.text in ('(', '[', '{', '<'):
                         depth += 1
@@ -395,6 +395,7 @@ def _closures(body, spec, ctr, dropped, used):
                     if x.kind == 'punct' and x.text == ',' and depth == 0:
                         plist.append(cur)
                         cur = []
+                        commas.append(x)
                     else:
                         cur.append(x)
                 if [x for x in cur if x.sig()]:
@@ -404,15 +405,33 @@ def _closures(body, spec, ctr, dropped, used):
                     if sg and sg[0].text == 'mut':
                         sg = sg[1:]
                     return len(sg) >= 1 and sg[0].kind == 'ident' and (len(sg) == 1 or sg[1].text == ':')
+                # a wildcard parameter `_` gets a fresh name (Verus accepts only named closure parameters)
+                for pi, p in enumerate(plist):
+                    sg = [x for x in p if x.sig()]
+                    if sg and sg[0].kind == 'ident' and sg[0].text == '_' and (len(sg) == 1 or sg[1].text == ':'):
+                        ix = [xi for xi, x in enumerate(p) if x is sg[0]][0]
+                        dropped.append(('T8', '_', [sg[0]]))
+                        p[ix:ix + 1] = lit('__u%d_%d' % (k, pi), 'T8')
+                        params = None
                 if all(simple(p) for p in plist) and csp is None:
                     out.append(t)
-                    out += params
+                    if params is None:
+                        for pi, p in enumerate(plist):
+                            if pi:
+                                out += lit(', ', 'T8')
+                            out += _trim(p)
+                        # the commas between the original parameters are re-emitted by the template
+                        dropped.append(('T8', ',', commas))
+                    else:
+                        out += params
                     out.append(body[j])
                     out += _closures(cbody, spec, ctr, dropped, used)
                     i = e
                     continue
                 # rewritten form; the original closing '|' is replaced by a template one (keeps source order)
                 dropped.append(('T8', '|', [body[j]]))
+                if commas:
+                    dropped.append(('T8', ',', commas))
                 out.append(t)
                 lets = []
                 first = True
@@ -464,23 +483,47 @@ def _trim(toks):
 
 
 def _apply_anchor(toks, where, fragment, text, fname):
-    frag = [t.text for t in tokenize(fragment) if t.sig()]
-    if not frag:
-        raise Unsupported('%s: empty anchor fragment' % fname)
+    """Splice `text` before / after the token sequence `fragment` (which must match exactly once), or after the end of
+    the statement that contains it (`after-stmt`: the next `;` at the same bracket depth). `A>> | <<B` gives
+    alternatives, tried in order: the first one that matches exactly once is used."""
+    alts = [a.strip() for a in fragment.split('>> | <<')]
     idx = [i for i, t in enumerate(toks) if t.sig() and t.origin in ('orig', 'T3', 'T8')]
     texts = [toks[i].text for i in idx]
-    hits = []
-    for s in range(0, len(texts) - len(frag) + 1):
-        if texts[s:s + len(frag)] == frag:
-            hits.append(s)
-    if len(hits) != 1:
-        raise Unsupported('%s: anchor <<%s>> matches %d times (must be exactly 1)' % (fname, fragment, len(hits)))
-    s = hits[0]
+    chosen = None
+    counts = []
+    for alt in alts:
+        frag = [t.text for t in tokenize(alt) if t.sig()]
+        if not frag:
+            raise Unsupported('%s: empty anchor fragment' % fname)
+        hits = [s for s in range(0, len(texts) - len(frag) + 1) if texts[s:s + len(frag)] == frag]
+        counts.append(len(hits))
+        if len(hits) == 1:
+            chosen = (hits[0], frag)
+            break
+    if chosen is None:
+        raise Unsupported('%s: anchor <<%s>> matches %s times (must be exactly 1)' % (fname, fragment, counts))
+    s, frag = chosen
     sp = splice_toks('\n' + text)
     if where == 'before':
         pos = idx[s]
-    else:
+    elif where == 'after':
         pos = idx[s + len(frag) - 1] + 1
+    else:
+        # end of the enclosing statement: first `;` at depth 0 counted from the start of the fragment
+        depth, pos = 0, None
+        for j in range(idx[s], len(toks)):
+            t = toks[j]
+            if t.kind == 'punct' and t.text in rsscan.OPEN:
+                depth += 1
+            elif t.kind == 'punct' and t.text in rsscan.CLOSE:
+                depth -= 1
+                if depth < 0:
+                    break
+            elif t.kind == 'punct' and t.text == ';' and depth == 0:
+                pos = j + 1
+                break
+        if pos is None:
+            raise Unsupported('%s: anchor <<%s>>: no statement end found' % (fname, fragment))
     return toks[:pos] + sp + toks[pos:]
 
 
@@ -569,8 +612,8 @@ def extract_fn(item, file, impl_key, spec, twin_false=False):
         if d[0] != 'T3swap':
             continue
         pat, expr = d[3], d[4]
-        pat = [t for t in pat if id(t) not in dropped_ids]
-        expr = [t for t in expr if id(t) not in dropped_ids]
+        pat = [t for t in pat if id(t) not in dropped_ids and t.origin == 'orig']
+        expr = [t for t in expr if id(t) not in dropped_ids and t.origin == 'orig']
         if not pat:
             continue
         idx = [i for i, t in enumerate(exp) if t is pat[0]]
@@ -594,6 +637,39 @@ def extract_fn(item, file, impl_key, spec, twin_false=False):
     fo = FnOut(item.name, out, dropped, file, first.line, spec)
     fo.loops = ctr.n
     return fo
+
+
+def extract_contract(item, spec):
+    """Signature (copied from the source, T7 applied) + the overlay's requires/ensures, body `unimplemented!()`,
+    marked external_body: the callee is used by its contract only; its body is verified in the owning unit."""
+    toks = item.toks
+    sig = toks[item.lead_end:item.body_open]
+    out = lit('#[verifier::external_body] // contract-only: body verified in the unit that owns this contract\n', 'T6')
+    arrow, depth = None, 0
+    for i, t in enumerate(sig):
+        if t.kind == 'punct' and t.text in ('(', '[', '<'):
+            depth += 1
+        elif t.kind == 'punct' and t.text in (')', ']', '>'):
+            depth -= 1
+        elif t.kind == 'punct' and t.text == '->' and depth == 0:
+            arrow = i
+    if arrow is not None:
+        j = next_sig(sig, arrow + 1)
+        out += sig[:j] + lit('(%s: ' % spec.ret, 'T7') + _trim(sig[j:]) + lit(')', 'T7')
+    else:
+        out += _trim(sig)
+    out += lit('\n', 'T6')
+    if 'requires' in spec.sections:
+        out += splice_toks('requires\n' + _strip_markers(spec.sections['requires']))
+    if 'ensures' in spec.sections:
+        out += splice_toks('ensures\n' + _strip_markers(spec.sections['ensures']))
+    out += lit('{ unimplemented!() }', 'T6')
+    spec.used = True
+    return out
+
+
+def _strip_markers(text):
+    return '\n'.join(l for l in text.split('\n') if not l.strip().startswith('//#')) + '\n'
 
 
 # --------------------------------------------------------------------------------------
@@ -686,8 +762,19 @@ def _find_impl(repo, file, hre, cache):
 
 def build_unit(name, repo, template_path, overlay_path, twin_false=False, variants=frozenset(), base=None):
     specs = load_overlay(overlay_path, variants)
+    with open(template_path, encoding='utf-8') as f:
+        tlines = filter_variant(f.read().split('\n'), variants)
+    # `//@overlays A,B`: contract blocks of other units (for callees taken by contract only); those may stay unused
+    foreign = []
+    for ln in tlines:
+        if ln.strip().startswith('//@overlays '):
+            for nm in ln.strip().split(None, 1)[1].split(','):
+                fs = load_overlay(os.path.join(VERIF, 'specs', nm.strip() + '.spec'), variants)
+                for s in fs:
+                    s.foreign = True
+                foreign += fs
     byk = {}
-    for s in specs:
+    for s in specs + foreign:
         if s.key() in byk:
             raise Unsupported('overlay: duplicate fn block %s' % (s.key(),))
         byk[s.key()] = s
@@ -696,15 +783,20 @@ def build_unit(name, repo, template_path, overlay_path, twin_false=False, varian
     u.base = base or name
     chunks = []   # list of ('text', str) | ('toks', [Tok], meta)
     probes = []
-    with open(template_path, encoding='utf-8') as f:
-        tlines = filter_variant(f.read().split('\n'), variants)
 
-    def emit_fn(file, hre, impl_item, fname):
+    def emit_fn(file, hre, impl_item, fname, contract_only=False):
         sub = rsscan.split_items(impl_item.body_toks())
         hits = rsscan.find_item(sub, 'fn', fname)
         if len(hits) != 1:
             raise Unsupported('fn %s in %s %s: %d matches (lost anchor)' % (fname, file, hre, len(hits)))
         spec = byk.get((file, hre, fname))
+        if contract_only:
+            # callee taken by its contract only (its body is verified in the unit that owns the overlay block)
+            if spec is None:
+                raise Unsupported('contract-only fn %s has no overlay block' % fname)
+            chunks.append(('toks', extract_contract(hits[0], spec), file))
+            chunks.append(('text', '\n'))
+            return
         probe = None
         if twin_false:
             probe = 'p%d' % len(probes)
@@ -717,7 +809,7 @@ def build_unit(name, repo, template_path, overlay_path, twin_false=False, varian
             raise Unsupported('include depth')
         for ln in lines:
             st = ln.strip()
-            if st.startswith('//@variants '):
+            if st.startswith('//@variants ') or st.startswith('//@overlays '):
                 continue
             if st.startswith('//@include '):
                 p = os.path.join(VERIF, st.split(None, 1)[1].strip())
@@ -763,12 +855,14 @@ def build_unit(name, repo, template_path, overlay_path, twin_false=False, varian
                     chunks.append(('toks', _trim(toks), file))
                 elif kind == 'impl':
                     file, hre = a[2], a[3]
-                    fns, consts = [], []
+                    fns, consts, conly = [], [], []
                     for o in a[4:]:
                         if o.startswith('fns='):
                             fns = [x for x in o[4:].split(',') if x]
                         elif o.startswith('consts='):
                             consts = [x for x in o[7:].split(',') if x]
+                        elif o.startswith('contract='):
+                            conly = [x for x in o[9:].split(',') if x]
                     im = _find_impl(repo, file, hre, cache)
                     hdr = _trim(im.toks[im.lead_end:im.body_open])
                     chunks.append(('toks', hdr + lit(' {\n', 'T5'), file))
@@ -780,6 +874,8 @@ def build_unit(name, repo, template_path, overlay_path, twin_false=False, varian
                         # Verus mode keyword: an associated const is emitted as `exec const` (no-op for rustc)
                         chunks.append(('toks', lit('exec ', 'T4') + _trim(extract_const(hits[0])), file))
                         chunks.append(('text', '\n'))
+                    for fn in conly:
+                        emit_fn(file, hre, im, fn, contract_only=True)
                     for fn in fns:
                         emit_fn(file, hre, im, fn)
                         chunks.append(('text', '\n'))
@@ -789,6 +885,9 @@ def build_unit(name, repo, template_path, overlay_path, twin_false=False, varian
                     # carried over, de-duplicated; everything else lives in this one module already
                     files = a[2].split(',')
                     crates = ('emap', 'micromap', 'microstack')
+                    for o in a[3:]:
+                        if o.startswith('crates='):
+                            crates = tuple(x for x in o[7:].split(',') if x)
                     seen_use = set()
                     for file in files:
                         for it in _load_items(repo, file, cache):
